@@ -70,6 +70,7 @@ CONSTANTS
     Ops,         \* subset of {"Mount","Check","Unmount"}
     MaxCalls, MaxConc, MaxObj,
     SameMp,      \* may two calls on one mountpoint be in flight (FALSE = the snapshotter's contract)
+    OneMount,    \* at most one Mount in flight (generation for the gated replay only; the exhaustive configs say FALSE)
     AllowNoVerif, DisableVerif, NoPrefetch, NoBgFetch,     \* config.Config of the filesystem
     PreRes,      \* labels carry a neighbouring layer (pre-resolution in the background)
     Expiry,      \* the resolver's TTL may evict a cached layer object at any time
@@ -125,6 +126,7 @@ Obs(act, c) == [act |-> act, c |-> c, op |-> calls[c].op, mp |-> calls[c].mp]
 Call(op, mp, b, lab) ==
     /\ Len(calls) < MaxCalls /\ Cardinality(InFlight) < MaxConc
     /\ SameMp \/ ~Busy(mp)
+    /\ (op = "Mount" /\ OneMount) => ~\E c \in InFlight : calls[c].op = "Mount"
     /\ (op = "Mount" /\ ~SameMp) => (lmap[mp] = 0 /\ fuse[mp] = 0)   \* contract: a mountpoint is a fresh snapshot directory
     /\ calls' = Append(calls, [op |-> op, mp |-> mp, b |-> b, lab |-> lab, pc |-> "start", h |-> 0, src |-> 1,
                                err |-> "", dos |-> 0, dones |-> 0, f0 |-> fuse[mp], pre |-> FALSE])
@@ -219,17 +221,19 @@ MFuse(c, ok) ==
             /\ lmap' = lmap
        ELSE /\ fuse' = fuse
             /\ calls' = Fail(c, "fuse")
-            /\ lmap' = IF EraseOnFail /\ lmap[calls[c].mp] = calls[c].h THEN [lmap EXCEPT ![calls[c].mp] = 0] ELSE lmap
+            /\ lmap' = lmap
     /\ last' = Obs("Fuse", c) @@ [ok |-> ok]
     /\ UNCHANGED <<hs, objs, pri>>
 
-\* the deferred l.Done() of an error return (nothing to release before the layer was resolved)
+\* the deferred function of an error return: unregister the layer if this call registered it (EraseOnFail), l.Done()
+\* (nothing to release before the layer was resolved)
 MFail(c) ==
     /\ Step(c, "fail") /\ calls[c].op = "Mount"
+    /\ lmap' = IF EraseOnFail /\ calls[c].h # 0 /\ lmap[calls[c].mp] = calls[c].h THEN [lmap EXCEPT ![calls[c].mp] = 0] ELSE lmap
     /\ hs' = IF calls[c].h # 0 /\ ReleaseOnFail THEN [hs EXCEPT ![calls[c].h].st = "released"] ELSE hs
     /\ calls' = Set(c, "ret")
     /\ last' = Obs("Release", c) @@ [h |-> calls[c].h]
-    /\ UNCHANGED <<lmap, objs, fuse, pri>>
+    /\ UNCHANGED <<objs, fuse, pri>>
 
 (* ---- Check ---- *)
 CLookup(c) ==
